@@ -67,16 +67,14 @@ pub fn verification_key_factor<C: Ctx>(
     ctx: &C,
 ) -> C::E {
     let mut accum = C::E::mul_identity();
-    // Trustees start at 1
-    let t = receiver_trustee + 1;
-    for (i, commitment) in sender_commitments.iter().enumerate().take(threshold)
-    {
-        let power = t.pow(i as u32);
-        let power_element = ctx.exp_from_u64(power as u64);
-
-        accum = accum
-            .mul(&ctx.emod_pow(commitment, &power_element))
-            .modp(ctx);
+    // Trustees start at 1. The power (receiver + 1)^i is accumulated in the
+    // exponent ring, as eval_poly does: computed in usize it overflows from
+    // 17 trustees on.
+    let t = ctx.exp_from_u64((receiver_trustee + 1) as u64);
+    let mut power = C::X::mul_identity();
+    for commitment in sender_commitments.iter().take(threshold) {
+        accum = accum.mul(&ctx.emod_pow(commitment, &power)).modp(ctx);
+        power = power.mul(&t).modq(ctx);
     }
 
     accum
